@@ -213,10 +213,16 @@ func persistCuckoo(c *Ctx) persistObj {
 	n := []uint64{1, 2, 4, 8}[c.rng.Intn(4)]
 	b := []uint64{1, 2, 4}[c.rng.Intn(3)]
 	fpl := []uint64{1, 2, 4}[c.rng.Intn(3)]
+	anyElement := c.rng.Intn(6) == 0
+	if anyElement {
+		// fingerprint length 20 with elements whose hash has fewer digits (finding D3: such an Insert
+		// counts an entry it does not store): a reachable state like any other, the image carries it
+		fpl = 20
+	}
 	f := gostatix.NewCuckooFilterWithRetries(n, b, fpl, 10)
 	var pool [][]byte
 	for _, e := range elemPool(c.rng, 14, false) {
-		if _, _, _, ok := cuckooPos(e, n, fpl); ok {
+		if _, _, _, ok := cuckooPos(e, n, fpl); ok || anyElement {
 			pool = append(pool, e)
 		}
 	}
